@@ -478,6 +478,17 @@ func (c *CheckCtx) run(verbose bool) int {
 	for _, a := range assumed {
 		trusted = append(trusted, "assumed contract: "+a)
 	}
+	// every assumption left unchecked, in one list: the per-site assumptions noted by the generator, the property's
+	// standing assumptions and trusted items, its stated lemmas, and the assumed contracts of dependency functions
+	for _, t := range spec.Trusted {
+		assumptions = append(assumptions, "trusted / standing assumption: "+t)
+	}
+	for _, l := range spec.Lemmas {
+		assumptions = append(assumptions, "stated lemma (not machine-checked): "+l)
+	}
+	for _, a := range assumed {
+		assumptions = append(assumptions, "assumed contract (not verified here): "+a)
+	}
 	evals, distinct := 0, 0
 	for _, b := range c.Bounded {
 		evals += b.Cases
